@@ -2,7 +2,10 @@
 Scenario:  <cli> <rethrow> <filter> <runign> <repeat> <ntests> { <ignored> <sel> <line> <setup> <body> <teardown> <pre> <post> }
            stmt list = <n> { <base> | :r <cond> <k> <base> <base> } ; base = :n | :c | :x <file> <line> | :j <file> <line> | :s | :o
            pre/post = <n> { <line> | :r <cond> <k> <line> } ; cond = :eq | :ne | :lt | :ge
-           (:n no-op, :c passing check, :x C++-style failing check, :j C-style (longjmp) failing check, :s throw std::runtime_error, :o throw int;
+                                                                     | :k :<kind> <agree> <file> <line>
+           (:k = a check through one assert entry point (CK_NAMES: member functions of UtestShell, C-interface functions, the CHECK_COMPARE macro)
+            with operands that satisfy the relation (agree=1) or not (0), handed the location <file>:<line>;
+            :n no-op, :c passing check, :x C++-style failing check, :j C-style (longjmp) failing check, :s throw std::runtime_error, :o throw int;
             ":r c k A B" = static state in the test: behaves as A in the repetitions whose number (from 0) satisfies c k, as B in the others;
             a conditional plugin line is reported only in the matching repetitions; <repeat> is the number after -r, -r0 repeats twice)
 Observation: see harness/C01.cpp."""
@@ -10,7 +13,10 @@ import itertools
 ID = "C01"
 FLAVOURS = ["asan", "noexc"]
 HARNESS_SRCS = ["harness/C01.cpp"]
-RULE = ("programs of 0-60 scripted tests, phases of 0-5 statements; every failure kind (C++-style check, C-style check, std exception, "
+RULE = ("programs of 0-60 scripted tests, phases of 0-5 statements; every assert entry point (20 member functions of UtestShell incl. zero-length "
+        "assertBinaryEqual, 19 C-interface functions, the CHECK_COMPARE macro) x operands that pass / fail x plain and NULL operand variants, each handed "
+        "its own file:line (different from the TEST's and from every other statement's), in body position and the failing ones in setup and teardown, "
+        "all kinds in one test, runs of 39 tests failing through a different entry point each, and mixed into the random programs; every failure kind (C++-style check, C-style check, std exception, "
         "foreign exception, plugin-reported) x phase (setup, body, teardown, plugin pre/post) systematically, pairs of failing phases, "
         "runs of 12-25 consecutive failing tests of each kind x phase (beyond the 10 jump-buffer slots), interleaved with passing / ignored / "
         "filtered-out tests, repeat 1-4 (and -r0 = twice), -ri, through TestRegistry::runAllTests and through CommandLineTestRunner::runAllTestsMain; "
@@ -28,6 +34,31 @@ ASSUMPTIONS = ["rethrowExceptions off (-e / -ci) whenever a program can throw: D
                "the number after -r is read as CommandLineArguments::setRepeatCount does (-r0 repeats twice)"]
 PER_TIMEOUT = 30.0
 KINDS = ["x", "j", "s", "o"]
+# check kinds (harness/C01.cpp CKNAMES, coq/C01_Model.v ckind)
+CXX_KINDS = ["true", "cstreq", "cstrneq", "nocaseeq", "contains", "nocasecontains", "longs", "ulongs", "llongs", "ullongs", "sbytes", "ptrs",
+             "fptrs", "doubles", "equals", "binary", "binary0", "bits", "compare", "fail"]
+C_KINDS = ["c_bool", "c_int", "c_uint", "c_long", "c_ulong", "c_llong", "c_ullong", "c_real", "c_char", "c_ubyte", "c_sbyte", "c_string",
+           "c_pointer", "c_memcmp", "c_memcmp0", "c_bits", "c_failtext", "c_fail", "c_check"]
+CK_NAMES = CXX_KINDS + C_KINDS + ["m_compare"]
+ALWAYS_FAIL = ("fail", "c_failtext", "c_fail")
+ZERO_LENGTH = ("binary0", "c_memcmp0")
+NULL_SENSITIVE = ("cstreq", "cstrneq", "nocaseeq", "contains", "nocasecontains", "ptrs", "binary", "binary0", "c_string", "c_pointer", "c_memcmp", "c_memcmp0")
+
+
+def k_passes(kind, agree):
+    """independent python reading: does the test go on after this check"""
+    if kind in ALWAYS_FAIL: return False
+    if kind in ZERO_LENGTH: return True
+    return bool(agree)
+
+
+def k_counted(kind, agree):
+    """... and does it add to "checks": everything that enters an assert function; the CHECK_COMPARE macro does not when the comparison holds"""
+    return 0 if (kind == "m_compare" and agree) else 1
+
+
+def ck(kind, agree, line, file=0):
+    return ":k :%s %x %x %x" % (kind, int(agree), file, line)
 
 
 def st(kind, rng=None, tline=100):
@@ -140,10 +171,80 @@ def rep_dependent(tier, rng):
     return out
 
 
+def rand_kind_line(rng):
+    return rng.randrange(201, 3999)       # never a TEST's own line (1, 20, 100, 4000)
+
+
 def rand_base(rng, pfail, line, allow_throw=True):
     if rng.random() < pfail:
+        if rng.random() < 0.35:
+            k = rng.choice([k for k in CK_NAMES if k not in ZERO_LENGTH])
+            return ck(k, 0, rand_kind_line(rng), int(rng.random() < 0.25))
         return st(rng.choice(KINDS if allow_throw else KINDS[:2]), rng, line)
+    if rng.random() < 0.3:
+        k = rng.choice([k for k in CK_NAMES if k not in ALWAYS_FAIL])
+        return ck(k, 0 if k in ZERO_LENGTH and rng.random() < 0.5 else 1, rand_kind_line(rng), int(rng.random() < 0.25))
     return rng.choice([":n", ":c", ":c"])
+
+
+def check_kinds(tier, rng):
+    """every assert entry point x pass/fail, with its own location (distinct from the TEST's line 100 and from every other statement's)"""
+    out = []
+    modes = [dict(cli=0), dict(cli=1), dict(cli=1, repeat=2)]
+    n = [0]
+
+    def mode():
+        n[0] += 1
+        return modes[0] if n[0] % 2 else modes[1] if n[0] % 6 else modes[2]
+
+    def lines_for(kind):      # (line & 1, line & 2) selects the operands in the harness: plain / both or one NULL (expected, actual)
+        return (110, 109, 111) if kind in NULL_SENSITIVE else (110, 109)
+    # body position, between passing statements; a statement behind it that must run iff the check passes
+    for kind in CK_NAMES:
+        for agree in (1, 0):
+            for k, line in enumerate(lines_for(kind)):
+                f = int(k == 1 and agree == 0)
+                t = test(line=100, setup=[":c"], body=[":c", ck(kind, agree, line, f), ":c"], teardown=[":c"])
+                out.append(scn([PASS(), t, PASS()] if k == 0 else [t], **mode()))
+    # the failing ones also in setup and teardown (teardown after a body that failed elsewhere, too)
+    for j, kind in enumerate(CK_NAMES):
+        line = (110, 109, 111)[j % 3]
+        out.append(scn([test(line=100, setup=[":c", ck(kind, 0, line), ":c"], body=[":c"], teardown=[":c"]), PASS()], **mode()))
+        out.append(scn([test(line=100, setup=[":c"], body=[":c"], teardown=[ck(kind, 0, line, 1), ":c"])], **mode()))
+        if j % 4 == 0:
+            out.append(scn([test(line=100, setup=[":c"], body=[":x 0 69", ":c"], teardown=[":n", ck(kind, 0, line), ":c"])], **mode()))
+    # all kinds in one body: every one passes (zero-length comparisons with different operands included), then one fails at the very end
+    allpass = [ck(k, 0 if k in ZERO_LENGTH else 1, 201 + 2 * j + (j % 2)) for j, k in enumerate(CK_NAMES) if k not in ALWAYS_FAIL]
+    for m in modes:
+        out.append(scn([test(line=100, setup=[":c"], body=allpass, teardown=[":c"])], **m))
+        out.append(scn([test(line=100, setup=allpass[:20], body=allpass[20:] + [ck("bits", 0, 399)], teardown=allpass[5:9] + [ck("c_memcmp", 0, 401, 1)])], **m))
+    # a long run (beyond the 10 jump-buffer slots) of tests failing through a different entry point each, C++ and C kinds interleaved
+    mixed = [k for pair in zip(CXX_KINDS, C_KINDS) for k in pair] + ["m_compare"]
+    for ph in range(3):
+        tests = []
+        for j, k in enumerate(mixed):
+            p = [[":c"], [":c"], [":c"]]
+            p[ph] = [":c", ck(k, 0, 300 + j), ":c"]
+            tests.append(test(line=100, setup=p[0], body=p[1], teardown=p[2]))
+        out.append(scn(tests, cli=ph % 2, repeat=1))
+    # zero-length comparisons and the uncounted macro in a test that depends on the repetition
+    out.append(scn([test(line=100, body=[rif("eq", 0, ck("binary0", 0, 111), ck("binary", 0, 111)), ":c"]), PASS()], cli=1, repeat=2))
+    out.append(scn([test(line=100, body=[rif("eq", 1, ck("m_compare", 1, 113), ck("compare", 1, 113)), ":c"])], cli=1, repeat=3))
+    if tier == "thorough":
+        for kind in CK_NAMES:
+            for agree in (1, 0):
+                for ph in range(3):
+                    for line in (110, 109, 111):
+                        for m in modes:
+                            p = [[":c"], [":c", ":n"], [":c"]]
+                            p[ph] = p[ph] + [ck(kind, agree, line, rng.randrange(2)), ":c"]
+                            out.append(scn([test(line=100, setup=p[0], body=p[1], teardown=p[2])] + ([PASS()] if rng.random() < 0.3 else []), **m))
+        # pairs of kinds in one test: the second one must be reached iff the first passes
+        for k1 in CK_NAMES:
+            for k2 in rng.sample(CK_NAMES, 6):
+                a1 = rng.randrange(2)
+                out.append(scn([test(line=100, setup=[ck(k1, a1, 110)], body=[ck(k2, 0, 113), ":c"], teardown=[ck(k1, 1, 115), ck(k2, 0, 117, 1)])], cli=rng.randrange(2)))
+    return out
 
 
 def rand_phase(rng, pfail, line, allow_throw=True, prep=0.0):
@@ -214,6 +315,7 @@ def generate(tier, rng):
         t = test(setup=[":c"], body=[st(k1), ":c"], teardown=[":n", st(k2)])
         out.append(scn([t] * 12, cli=rng.randrange(2)))
     out += rep_dependent(tier, rng)
+    out += check_kinds(tier, rng)
     # random programs
     n = 260 if tier == "quick" else 12000
     for _ in range(n):
@@ -275,6 +377,8 @@ def parse(s):
         k = nxt()
         if k in (":x", ":j"):
             return (k, int(nxt(), 16), int(nxt(), 16))
+        if k == ":k":
+            return (k, nxt()[1:], int(nxt(), 16), int(nxt(), 16), int(nxt(), 16))
         return (k,)
 
     def cond():
@@ -305,7 +409,7 @@ def parse(s):
 
 def unparse(cfg, tests):
     def btok(x):
-        return x[0] if len(x) == 1 else "%s %x %x" % x
+        return x[0] if len(x) == 1 else ":k :%s %x %x %x" % x[1:] if x[0] == ":k" else "%s %x %x" % x
 
     def stok(x):
         return rif(x[1], x[2], btok(x[3]), btok(x[4])) if x[0] == ":r" else btok(x)
@@ -317,12 +421,20 @@ def unparse(cfg, tests):
                cli=cfg[0], rethrow=cfg[1], filt=cfg[2], runign=cfg[3], repeat=cfg[4])
 
 
+def b_passes(b):
+    return b[0] in (":n", ":c") or (b[0] == ":k" and k_passes(b[1], b[2]))
+
+
+def b_counted(b):
+    return 1 if b[0] in (":c", ":x", ":j") else k_counted(b[1], b[2]) if b[0] == ":k" else 0
+
+
 def _bases(x):
     return [x[3], x[4]] if x[0] == ":r" else [x]
 
 
 def _fails(t):
-    return any(b[0] in (":x", ":j", ":s", ":o") for p in t["ph"] for x in p for b in _bases(x)) or t["pre"] or t["post"]
+    return any(not b_passes(b) for p in t["ph"] for x in p for b in _bases(x)) or t["pre"] or t["post"]
 
 
 def _dependent(t):
@@ -340,6 +452,29 @@ def n_reps(cfg):
     return (cfg[4] if cfg[4] else 2) if cfg[0] else 1
 
 
+def want_rep(cfg, tests, r):
+    """independent python reading of what repetition r must show: (checks, [(test, file, line, kind)] in order)"""
+    res = {"checks": 0, "fails": []}
+    for i, t0 in enumerate(tests):
+        t = at_rep(t0, r)
+        if (cfg[2] and not t["sel"]) or (t["ign"] and not cfg[3]):
+            continue
+        res["fails"] += [(i, 2, l, 3) for l in t["pre"]]
+
+        def phase(p):
+            for b in p:
+                res["checks"] += b_counted(b)
+                if not b_passes(b):
+                    res["fails"].append((i, 0, t["line"], 1) if b[0] in (":s", ":o") else (i, b[3], b[4], 0) if b[0] == ":k" else (i, b[1], b[2], 0))
+                    return False
+            return True
+        if phase(t["ph"][0]):
+            phase(t["ph"][1])
+        phase(t["ph"][2])
+        res["fails"] += [(i, 2, l, 3) for l in t["post"]]
+    return res["checks"], res["fails"]
+
+
 def rep_outcomes(cfg, tests):
     """per repetition: True = the repetition is OK (no failure, and at least one test ran or was ignored)"""
     res = []
@@ -352,7 +487,7 @@ def rep_outcomes(cfg, tests):
             counted += 1
             if t["ign"] and not cfg[3]:
                 continue
-            stops = lambda p: any(x[0] not in (":n", ":c") for x in p)
+            stops = lambda p: any(not b_passes(x) for x in p)
             if t["pre"] or t["post"] or stops(t["ph"][0]) or stops(t["ph"][2]) or (not stops(t["ph"][0]) and stops(t["ph"][1])):
                 failed = True
         res.append(not failed and counted > 0)
@@ -377,6 +512,14 @@ def classify(s):
         for k, kn in names.items():
             if any(b[0] == k for t in tests for x in t["ph"][pi] for b in _bases(x)):
                 lab.append("%s-in-%s" % (kn, pn))
+    for pi, pn in enumerate(("setup", "body", "teardown")):
+        ks = [b for t in tests for x in t["ph"][pi] for b in _bases(x) if b[0] == ":k"]
+        if any(not k_passes(b[1], b[2]) for b in ks): lab.append("kind-check-fails-in-%s" % pn)
+        if any(k_passes(b[1], b[2]) for b in ks): lab.append("kind-check-passes-in-%s" % pn)
+    for b in sorted(set((b[1], k_passes(b[1], b[2])) for t in tests for p in t["ph"] for x in p for b in _bases(x) if b[0] == ":k")):
+        lab.append("kind=%s:%s" % (b[0], "pass" if b[1] else "fail"))
+    if any(b[0] == ":k" and b[1] in ZERO_LENGTH for t in tests for p in t["ph"] for x in p for b in _bases(x)): lab.append("zero-length-binary-compare")
+    if any(b[0] == ":k" and b[1] == "m_compare" and b[2] for t in tests for p in t["ph"] for x in p for b in _bases(x)): lab.append("uncounted-passing-compare-macro")
     if any(t["pre"] for t in tests): lab.append("plugin-pre-failure")
     if any(t["post"] for t in tests): lab.append("plugin-post-failure")
     if any(_dependent(t) for t in tests):
@@ -400,13 +543,24 @@ def extra_oracle(s, o, flavour):
     """third opinion on the exit-value clause, from the printed summaries alone and from a python reading of the program:
     the returned value is zero iff every repetition's summary reads OK iff every repetition of the program is OK"""
     cfg, tests = parse(s)
-    if not cfg[0] or cfg[1] or o.startswith("!") or o == "skip":
+    if cfg[1] or o.startswith("!") or o == "skip":
         return None
     try:
         ob = parse_obs(o)
     except Exception:
         return None
-    if ob["escaped"] or ob["ret"] == "~":
+    if ob["escaped"]:
+        return None
+    # ... and on the two clauses about single checks: every failure printed once where it happened, "checks" = counted checks executed
+    if len(ob["reps"]) == n_reps(cfg):
+        for r, rp in enumerate(ob["reps"]):
+            checks, fails = want_rep(cfg, tests, r)
+            got = [tuple(int(x, 16) for x in f) for f in rp["fl"]]
+            if got != fails:
+                return "repetition %d prints the failures (test, file, line, kind) %s, the program demands %s" % (r, got, fails)
+            if rp["sm"] is not None and int(rp["sm"][4], 16) != checks:
+                return "the summary of repetition %d says %d checks, the program executed %d counted checks" % (r, int(rp["sm"][4], 16), checks)
+    if not cfg[0] or ob["ret"] == "~":
         return None
     zero = ob["ret"] == "0"
     printed = [r["sm"] is not None and r["sm"][0] == "1" for r in ob["reps"]]
@@ -467,6 +621,16 @@ def signature(s, o):
             return mode + ": returned value %s zero although %s" % ("is" if ob["ret"] == "0" else "is not", "a repetition's summary reads Errors" if not all(printed) else "every summary reads OK")
         if len(printed) == n_reps(cfg) and printed != rep_outcomes(cfg, tests):
             return mode + ": the summary of a repetition reads OK/Errors against what that repetition did"
+    kinds = sorted(set(b[1] for t in tests for p in t["ph"] for x in p for b in _bases(x) if b[0] == ":k"))
+    tag = " [check kind %s]" % kinds[0] if len(kinds) == 1 else ""
+    if not cfg[1] and len(ob["reps"]) == n_reps(cfg):
+        for r, rp in enumerate(ob["reps"]):
+            checks, fails = want_rep(cfg, tests, r)
+            got = [tuple(int(x, 16) for x in f) for f in rp["fl"]]
+            if len(got) == len(fails) and got != fails and [(g[0], g[3]) for g in got] == [(f[0], f[3]) for f in fails]:
+                return mode + ": a failure is printed with a file/line other than the one where it happened" + tag
+            if got == fails and int(rp["sm"][4], 16) != checks:
+                return mode + ": the checks figure of a summary is not the number of counted checks executed" + tag
     return mode + ": trace, failure records, counts or returned value differ from what the program demands"
 
 
